@@ -139,11 +139,14 @@ func (r *replicator) GetQueue() []cid.Cid {
 	r.muProcess.Lock()
 	defer r.muProcess.Unlock()
 
-	fetching := make([]cid.Cid, r.queue.Len())
-	i := 0
-	for c := range r.tasks {
-		fetching[i] = c
-		i++
+	// the hashes that are queued or being fetched; the task table also keeps the
+	// hashes that were already fetched, which are neither pending nor bounded by
+	// the queue length
+	fetching := make([]cid.Cid, 0, r.queue.Len())
+	for c, state := range r.tasks {
+		if state != stateFetched {
+			fetching = append(fetching, c)
+		}
 	}
 
 	return fetching
